@@ -538,6 +538,55 @@ def r16e(ctx: Context) -> None:
     if checked < 2:
         raise AnalysisError(f"only {checked} test(s) on the stack-trace flag found (2 confirmed)")
 
+def r16h(ctx: Context) -> None:
+    """The command line ends a run with a process exit; the API runs the same main() and has to turn that exit into
+    its own answer: an exception when the run ended in an error, results otherwise.  Every API method that runs main()
+    does this the same way - catch the exit, keep its code, hand the code to what builds the answer.  A sibling that
+    drops one of the three steps answers 'no failures' for a run that the command line ends with an error."""
+    prog = ctx.prog
+    rule = ctx.rule("R16h", "every API method that runs main() catches the exit, keeps its code and hands it to what builds the answer", 4)
+    api = prog.cls(API)
+    main = prog.method(MAIN, "main")
+    for method in sorted(api.methods.values(), key=lambda f: f.qualname):
+        for site in prog.sites_in(method):
+            if main not in site.targets:
+                continue
+            key = func_key(method, site.node) + " [exit code kept]"
+            handlers = [(t, h) for t in walk_local(method.node) if isinstance(t, ast.Try) and any(sub is site.node for stmt in t.body for sub in ast.walk(stmt))
+                        for h in t.handlers if h.type is None or any((dotted(sub) or "").split(".")[-1] in ("SystemExit", "BaseException") for sub in ast.walk(h.type))]
+            if not handlers:
+                rule.fail(key, site.where, f"{method.short} runs main() outside a handler for SystemExit: the run's exit ends the caller's process")
+                continue
+            try_stmt, handler = handlers[0]
+            kept = [t.id for stmt in handler.body for n in ast.walk(stmt) if isinstance(n, (ast.Assign, ast.AnnAssign)) and getattr(n, "value", None) is not None
+                    and handler.name and any(isinstance(sub, ast.Attribute) and sub.attr == "code" and isinstance(sub.value, ast.Name) and sub.value.id == handler.name for sub in ast.walk(n.value))
+                    for t in (n.targets if isinstance(n, ast.Assign) else [n.target]) if isinstance(t, ast.Name)]
+            if not kept:
+                rule.fail(key, where(method, handler), f"{method.short} catches the exit of main() but does not keep its code: the answer is built as if the run had ended well (its sibling methods keep 'this_exception.code' and hand it on)")
+                continue
+            # the statements after the try read it
+            used = False
+            later: List[ast.stmt] = []
+            holder_stmt: ast.AST = try_stmt
+            while True:
+                block = next((b for h in ast.walk(method.node) for b in (getattr(h, "body", None), getattr(h, "orelse", None), getattr(h, "finalbody", None)) if isinstance(b, list) and any(s is holder_stmt for s in b)), None)
+                if block is None:
+                    break
+                index = next(i for i, s in enumerate(block) if s is holder_stmt)
+                later.extend(block[index + 1:])
+                parent = next((h for h in ast.walk(method.node) if isinstance(h, ast.stmt) and h is not method.node and any(block is getattr(h, f, None) for f in ("body", "orelse", "finalbody"))), None)
+                if parent is None:
+                    break
+                holder_stmt = parent
+            for stmt in later:
+                if any(isinstance(sub, ast.Name) and sub.id in kept and isinstance(sub.ctx, ast.Load) for sub in ast.walk(stmt)):
+                    used = True
+            if used:
+                rule.ok(key, f"'{kept[0]}' kept and handed on")
+            else:
+                rule.fail(key, where(method, handler), f"{method.short} keeps the exit code in '{kept[0]}' but nothing after the call reads it")
+
+
 def run(ctx: Context) -> None:
     r16a(ctx)
     r16b(ctx)
@@ -545,3 +594,4 @@ def run(ctx: Context) -> None:
     r16d(ctx)
     r16e(ctx)
     api_results_from_presentation(ctx)
+    r16h(ctx)
